@@ -15,9 +15,11 @@ from common import Ctx, Finding, Outcome, err_class
 sys.path.insert(0, str(common.VERIF / "tools"))
 import gen_periodic  # noqa: E402
 import c01_anchor  # noqa: E402  (embedded textbook table + its translator; independent of /repo)
+import c01_src  # noqa: E402  (translator of the lookup LOGIC of periodic_table.py: ladders, resolver statements, accessor bodies, __init__)
 
 PROPERTY = "C01"
-LEAN_TARGETS = ["QcelVerif.Props.C01", "QcelVerif.Driver.C01"]
+LEAN_TARGETS = ["QcelVerif.Props.C01", "QcelVerif.Lemmas.PeriodicSrc", "QcelVerif.Props.C01SrcKeys", "QcelVerif.Props.C01Src", "QcelVerif.Props.C01SrcShipped", "QcelVerif.Props.C01SrcAnchor",
+                "QcelVerif.Driver.C01"]
 DRIVER = "QcelVerif/Driver/C01.lean"
 THEOREMS = [
     ("QcelVerif.PT.shipped_faithful", "rebuild(raw SRD-144 JSON, literal tables of build_periodic_table.py) = shipped (elements, nuclides): rows, order, D/T double spelling, masses digit-for-digit, bare element = most abundant / longest-lived isotope [decide +kernel over the whole generated table]"),
@@ -36,23 +38,61 @@ THEOREMS = [
     ("QcelVerif.PT.no_wrong_species", "a successful lookup is justified by one of: capitalised text is a nuclide key / int value is a tabulated Z / capitalised text is an element name"),
     ("QcelVerif.PT.strict_exact", "strict accepts exactly the non-strict answers that are bare element symbols"),
     ("QcelVerif.PT.period_group_standard", "for EVERY Z: period ladder = 1 + #noble gases below Z; group lists = 18-column offset rule (f-block none)"),
+    # ---- the lookup logic regenerated from periodic_table.py (Gen/PeriodicSrc.lean) ----
+    ("QcelVerif.PT.Src.period_src_eq_model", "for EVERY Z: the if/elif ladder of to_period as translated from the source (tests and returned literals in source order) = the hand model's periodOfZ"),
+    ("QcelVerif.PT.Src.group_src_eq_model", "for EVERY Z: the `Z in [...]` ladder of to_group as translated from the source = the hand model's groupOfZ (None where no list has Z)"),
+    ("QcelVerif.PT.Src.period_group_standard_src", "period_group_standard restated for the translated ladders: standard 18-column layout for EVERY Z"),
+    ("QcelVerif.PT.Src.resolve_src_eq_model", "ANY table, EVERY argument (int | ASCII str), both strict: executing the statements translated from _resolve_atom_to_key / resolve_eliso (nested try/except/else in source order, capitalize, int(), which dictionary, strict test against self.E) returns the hand model's key, and raises NotAnElementError — no other class — exactly where the model refuses"),
+    ("QcelVerif.PT.Src.resolve_src_error_class", "ANY table: the translated resolver never lets KeyError / ValueError / AttributeError / AssertionError escape: every failure is NotAnElementError"),
+    ("QcelVerif.PT.Src.accessors_src_eq_model", "ANY table: the translated bodies of to_Z / to_E / to_element / to_A / to_mass (is strict handed on; dictionaries applied to the key, innermost first) return the hand model's accessor values"),
+    ("QcelVerif.PT.Src.aliases_src", "the class-level second names to_atomic_number / to_symbol / to_name / to_mass_number are bound to the translated bodies of to_Z / to_E / to_element / to_A"),
+    ("QcelVerif.PT.Src.period_group_src_eq_model", "ANY table: to_period / to_group as translated (Z = self.to_Z(atom) without strict, then the ladder) = the hand model's"),
+    ("QcelVerif.PT.Src.resolve_case_insensitive_src", "resolve_case_insensitive restated for the translated resolver (ANY table, all 2^|s| casings)"),
+    ("QcelVerif.PT.Src.accessors_case_insensitive_src", "accessors_case_insensitive restated for every translated accessor body, second name and ladder"),
+    ("QcelVerif.PT.Src.no_wrong_species_src", "no_wrong_species restated for the translated resolver"),
+    ("QcelVerif.PT.Src.strict_exact_src", "strict_exact restated for the translated resolver"),
+    ("QcelVerif.PT.Src.tree_keys_are_row_keys", "the keys of the generated search tree, in order, are the sorted labels of the data file's EA array: the tree has no key of its own [decide +kernel, structural merge sort]"),
+    ("QcelVerif.PT.Src.lastAssoc_eq_lookup", "GENERAL: if every row is found in a search tree with its own value and every key of the tree is a row key, then 'last row with key k' = tree lookup for EVERY k"),
+    ("QcelVerif.PT.Src.buildDict_lookup", "GENERAL: dict(zip(keys, values)) modelled as insertion left to right with overwrite answers every key like 'last row with that key'"),
+    ("QcelVerif.PT.Src.dicts_src_eq_model", "shipped table, EVERY key of either kind (present or not): each of the seven dictionaries built from the generated arrays by dict(zip(K, V)) with K, V and the order as translated from __init__ (later duplicate wins; int-keyed vs str-keyed as the data file has them) answers like the hand model's tables (value or KeyError); `x in self.E` likewise"),
+    ("QcelVerif.PT.Src.resolve_src_shipped", "shipped table: the FULLY source-derived resolver (translated statements over translated dictionary constructions over the regenerated arrays) = the hand model's resolve, every argument, both strict"),
+    ("QcelVerif.PT.Src.aliases_agree_src", "aliases_agree restated for the fully source-derived lookups: all 118 rows x {int Z, str Z, symbol, name} x strict: key, Z, E, name of the row, no exception"),
+    ("QcelVerif.PT.Src.nuclides_resolve_src", "nuclides_resolve restated for the fully source-derived lookups: every nuclide label -> own key, E, A, mass; strict -> key iff bare element symbol else NotAnElementError"),
+    ("QcelVerif.PT.Src.nuclides_resolve_anycase_src", "nuclides_resolve_anycase restated for the fully source-derived resolver"),
+    ("QcelVerif.PT.Src.bare_default_textbook_src", "bare_default_textbook restated for the fully source-derived lookups: for every embedded textbook row the shipped table covers, the default isotope's own label gives that element's E, Z and A, and int Z / str Z / symbol / name give that A and exactly that label's mass, without any exception"),
 ]
-TRANSLATORS = [gen_periodic.main, c01_anchor.translate]
+TRANSLATORS = [gen_periodic.main, c01_anchor.translate, c01_src.gen_periodic_src]
 TRUSTED_BASE = [
     "Lean 4.33 kernel (decide +kernel evaluation of the generated tables; no native_decide); axioms audited per theorem",
     "tools/gen_periodic.py: re-encodes data/nist_2011_atomic_weights.py, the SRD-144 JSON and four literal tables of build_periodic_table.py as packed naturals (no normalisation in the translator); cross-checked by the exhaustive correspondence below",
-    "hand-written model Model/PeriodicTable.lean of periodic_table.py:42-347 tied by exhaustive correspondence over the whole table x alias forms x cases x accessors",
+    "hand-written model Model/PeriodicTable.lean of periodic_table.py:42-347: its lookup logic (resolver cascade, strict test, accessor bodies and second names, period/group ladders, "
+    "which array feeds which dictionary) is now ALSO regenerated from the source on every run (harness/c01_src.py -> Gen/PeriodicSrc.lean) and proved equal to the hand model "
+    "(resolve_src_eq_model, accessors_src_eq_model, period/group_src_eq_model, dicts_src_eq_model); the exhaustive correspondence over the whole table x alias forms x cases x accessors "
+    "stays, three-way (implementation / hand model / source-derived) on every line",
+    "harness/c01_src.py (Python ast -> terms of Model/PeriodicSrcEval.lean): trusted to emit the statements it reads (it fails loudly on every statement, expression, signature, "
+    "class member or module-level rebinding outside its subset; nothing is normalised or reordered); cross-checked by the three-way correspondence",
+    "Model/PeriodicSrcEval.lean: the evaluator's reading of Python semantics for that subset — try/except <classes>/else (handler and else unprotected), return/raise/assert/if, "
+    "short-circuit `and` on bools, AttributeError for int.capitalize(), ValueError for int(str), KeyError for a missing or wrongly-typed key, dict(zip()) = insert left to right with overwrite, "
+    "`in` on a list — hand-written, small, and tied to CPython only by the three-way correspondence; str.capitalize()/int() themselves remain the hand model's PStr.capitalize / PStr.pyInt",
     "CPython float(str)/Decimal(str) (mass as float must equal float(decimal text); checked to be the nearest double with exact rationals)",
     "the oracle's independent re-reading of the raw NIST JSON and the embedded textbook 18-column layout",
     "harness/c01_anchor.py: the embedded textbook table (118 x Z, symbol, NIST spelling of the name, most abundant or — NIST SP 966, July 2018 — longest-lived isotope; Uut/Uup/Uus renames; D/T) that anchors the oracle and the theorems bare_default_textbook / anchor_agrees_with_srd144; typed in by hand, cross-checked against the SRD-144 bracket notation (9 elements) and compositions in Lean and in the oracle; for Pu…Ts (25 elements) it is the only source besides the repository's own build script",
     "the raw SRD-144 JSON under raw_data/ is taken as NIST's word (a change to it that also contradicts the embedded table or the nuclear mass-excess bound is reported, a self-consistent change of individual mass digits is not detectable)",
 ]
 ASSUMPTIONS = [
+    "source-derived logic: `strict` is a bool (truthiness of other objects is outside the evaluator's subset, reported as such, never defaulted); exceptions are matched by class NAME against the "
+    "except tuple (no subclass relation among KeyError/ValueError/AttributeError/AssertionError/IndexError/TypeError is needed); the per-element table _el2a2mass built in __init__ is accepted "
+    "in its exact shape and not modelled (no lookup of C01 consults it); to_mass's final Decimal(mass)/float(mass) is shape-checked by the translator and modelled as before (Dec.toF64)",
     "ASCII identifiers only (CPython's Unicode capitalize()/int() accept e.g. non-ASCII digits); int and str arguments only (the documented Union[int, str])",
     "isotopic compositions are compared exactly in the Lean rebuild where the script compares floats (tabulated values are far apart relative to double spacing)",
 ]
 LEVEL_TEXT = (
-    "proof over the whole finite table by kernel evaluation (decide +kernel, no native_decide) of tables regenerated from /repo on every run — the "
+    "REGENERATED FROM SOURCE, then proved equal to the hand model: the if/elif ladders of to_period/to_group, the statements of _resolve_atom_to_key and its nested function, the accessor "
+    "bodies and second names, and the dictionary constructions of __init__ are read out of periodic_table.py by ast on every run; a small evaluator executes them, and Lean proves for ANY table, "
+    "EVERY int|ASCII-str argument and both strict values that the result (key or NotAnElementError, never another class) is the hand model's, for EVERY Z that the ladders are the model's, and for "
+    "EVERY key that the seven dictionaries built in the source's order from the regenerated arrays are the model's tables — so every theorem below also holds of the source-derived lookups "
+    "(restated: *_src). What stays trusted there: the translator's reading of the ast and the evaluator's semantics of the statement subset (both exercised three-way on every line of the correspondence). "
+    "Otherwise as before: proof over the whole finite table by kernel evaluation (decide +kernel, no native_decide) of tables regenerated from /repo on every run — the "
     "shipped table equals the documented rebuild of the raw NIST SRD-144 file, every alias form of every element and every nuclide label resolves "
     "to its own row, float masses are the nearest doubles — plus general theorems for arbitrary tables and ASCII texts (case-insensitivity, "
     "no-wrong-species, strict mode, period/group layout for every Z); tied to periodic_table.py by an exhaustive correspondence over the table x "
@@ -61,7 +101,7 @@ LEVEL_TEXT = (
     "(names, longest-lived isotopes, renames, aliases) are trusted by shipped_faithful only; the oracle and the theorems bare_default_textbook / "
     "anchor_agrees_with_srd144 do not read them, so a regeneration that alters a side table together with the data file is caught with a concrete input."
 )
-TECHNIQUE = "Lean 4 kernel evaluation of translator-generated tables + general string-model theorems + exhaustive correspondence"
+TECHNIQUE = "Lean 4 kernel evaluation of translator-generated tables + lookup logic translated from the source and proved equal to the hand model + general string-model theorems + exhaustive three-way correspondence"
 RULE = (
     "exhaustive: every element row x {int Z, str Z, symbol, name} and every nuclide label x {as-is, lower, upper, random mixed case} "
     "x accessors {to_Z,to_E,to_element (strict off/on), to_A, to_mass (Decimal+float), to_period, to_group} and the second names; a sample of the mass / mass-number lookups is repeated inside decimal.localcontext() with narrowed precision and other rounding modes (same oracle) "
@@ -71,6 +111,7 @@ RULE = (
     "plus an out-of-table stream (negative/large Z, decimal strings, A in front, non-existent A: every gap inside and both neighbours of each "
     "element's tabulated range, placeholder symbols Uut/Uup/Uus with real mass numbers, other tables' spellings (Aluminium, Caesium, Deuterium), "
     "all 1-2 letter and sampled 3-letter non-symbols, whitespace/sign/underscore integer spellings, random printable ASCII). "
+    "Every line is answered three ways — implementation, hand model, source-derived program (under the Python method name actually called, second names included) — and all three must agree. "
     "Distinct = (accessor, strict, argument); non-trivial = argument is not the canonical capitalised key (alias, other case, or outside the table)."
 )
 
@@ -218,7 +259,27 @@ def mixed(rng, s):
 
 
 def enc(acc, st, arg):
-    return f"{acc.partition('@')[0]} {st} " + (f"i {arg}" if isinstance(arg, int) else f"s {hexs(arg)}")
+    base, _, meth = acc.partition("@")
+    return f"{base} {st} " + (f"i {arg}" if isinstance(arg, int) else f"s {hexs(arg)}") + (f" {meth}" if meth else "")
+
+
+def split_model(ml):
+    """driver line `<hand model> || <source-derived>` -> (hand, src); a line without the separator (bad-op) counts for both"""
+    if ml is None:
+        return None, None
+    hand, sep, src = ml.partition(" || ")
+    return (hand, src) if sep else (ml, ml)
+
+
+def compare_model(out, case, got, ml):
+    """three-way: implementation vs hand model, implementation vs source-derived program"""
+    hand, src = split_model(ml)
+    want = got.split(" FLOAT")[0]
+    if hand is not None and hand != want:
+        out.mismatches.append(Finding("mismatch", case, observed=got, expected=hand, detail="implementation vs Lean hand model"))
+    if src is not None and src != want:
+        out.mismatches.append(Finding("mismatch:source-derived", case, observed=got, expected=src,
+                                      detail="implementation vs the program translated from periodic_table.py (hand model says: %s)" % hand))
 
 
 class Tables:
@@ -426,8 +487,7 @@ def run(ctx: Ctx) -> Outcome:
         # ---- oracle (independent of the model)
         out.violations += judge(pt, T, acc, st, arg, species, tag, got)
         # ---- correspondence
-        if ml is not None and ml != got.split(" FLOAT")[0]:
-            out.mismatches.append(Finding("mismatch", {"accessor": acc, "strict": st, "arg": arg, "species": species, "tag": tag}, observed=got, expected=ml, detail="implementation vs Lean model"))
+        compare_model(out, {"accessor": acc, "strict": st, "arg": arg, "species": species, "tag": tag}, got, ml)
     # ---- ambient state: the answers (the Decimal mass in particular: "exactly those of NIST") do not depend on the caller's
     #      decimal context (precision / rounding mode set by the surrounding program, e.g. inside decimal.localcontext())
     import decimal
@@ -455,6 +515,7 @@ def run(ctx: Ctx) -> Outcome:
     out.exhaustive = True
     out.notes.append(f"exhaustive over {len(elements)} element rows and {len(labels)} nuclide labels (NIST's and the shipped table's; {len(missing)} NIST labels missing from the shipped table, "
                      f"{len(labels) - len(exp)} shipped labels unknown to NIST); outside-table and random streams sampled from VERIF_SEED")
+    out.notes.append("three-way on every line: implementation / hand model (Model/PeriodicTable.lean) / statements translated from periodic_table.py run over dictionaries built in the source's order (Gen/PeriodicSrc.lean)")
     out.notes.append("translator cross-check: every table value the implementation returned was compared with the Lean driver reading the generated tables")
     out.notes.append("oracle sources: raw SRD-144 JSON + embedded textbook table (names, longest-lived isotopes, renames, 18-column layout); build_periodic_table.py and the shipped data file are NOT read by the oracle")
     return out
@@ -481,8 +542,7 @@ def replay(ctx: Ctx, case) -> Outcome:
     ml = ctx.run_model(DRIVER, [line])[0] if ctx.model_available else None
     out.evaluations = 1
     out.sample({"line": line, "impl": got, "model": ml})
-    if ml is not None and ml != got.split(" FLOAT")[0]:
-        out.mismatches.append(Finding("mismatch", case, observed=got, expected=ml))
+    compare_model(out, case, got, ml)
     T = Tables()
     if "species" in case:
         # the full oracle on this one input
